@@ -32,6 +32,12 @@ prop,name,w,wo,base,res=sys.argv[1:7]
 meta={"property":prop,"name":name,"demo_exit_with_change":int(w),"demo_exit_without_change":int(wo),
       "repo_tests_with_change":base,"checks_run_against_change":[l for l in res.split("\\n") if l],
       "needs_to_manifest":"see NOTES.md","confirmed":int(w)!=0 and int(wo)==0 and "906/906" in base}
+import os
+old=f"/verif/seeded/{name}/meta.json"
+if os.path.exists(old):  # keep what was written by hand on an earlier run
+    o=json.load(open(old))
+    for k in ("needs_to_manifest","round","note","breaks_property","what_was_run"):
+        if k in o and (k!="needs_to_manifest" or o[k]!="see NOTES.md"): meta[k]=o[k]
 json.dump(meta,open(f"/verif/seeded/{name}/meta.json","w"),indent=1)
 print("confirmed:",meta["confirmed"])
 PY
